@@ -32,7 +32,7 @@ Proof. destruct i as [A B]. simpl. intros HA HB HdA HdB Hnm HuA HuB. unfold C06_
   intros r Hr.
   assert (Hg: exists g, r = model_run A B g) by (repeat (destruct Hr as [<-|Hr]; [eexists; reflexivity|]); inversion Hr).
   destruct Hg as [g ->]. unfold run_holds, model_run, model_apply. simpl. split; [apply diff_quiet; auto|].
-  split; [|left]; eexists; rewrite diff_converge; auto. Qed.
+  split; [|left]; eexists; rewrite diff_converge_rendered; auto. Qed.
 
 Lemma inclass_C06_wf i : inclass_C06 i = true ->
   wf_schemab (fst i) = true /\ wf_schemab (snd i) = true /\ defaults_ok (fst i) = true /\ defaults_ok (snd i) = true
